@@ -63,6 +63,7 @@ def check_kahn(ctx: Ctx, oid: str):
 
 
 def run(ctx: Ctx):
+    ctx.assume("node labels are equal to themselves (x == x): Tarjan pops its stack until `w == v`, which a NaN label never satisfies")
     fs = {q: ctx.func("scc", q) for q in ("strongly_connected_components", "topological_sort", "condense")}
     n_loops = 0
     for q, f in fs.items():
